@@ -57,14 +57,19 @@ func TestVerifAscon(t *testing.T) {
 			for pl := 0; pl <= max; pl++ {
 				// quick: every bit swept on the +-1 block-boundary grid, a
 				// sample of bits elsewhere; thorough: every bit everywhere
-				sweep := lib.Thorough() || (edge[al] && edge[pl])
-				for rep := 0; rep < lib.Scale(1, 3); rep++ {
+				full := lib.Thorough() && lib.Cfg() != "asan"
+				sweep := full || (edge[al] && edge[pl])
+				reps := 1
+				if full {
+					reps = 3
+				}
+				for rep := 0; rep < reps; rep++ {
 					cases = append(cases, cs{m, al, pl, rep, sweep})
 				}
 			}
 		}
 		// a few long ones
-		for rep := 0; rep < lib.Scale(4, 40); rep++ {
+		for rep := 0; rep < scale(4, 40); rep++ {
 			cases = append(cases, cs{m, -1, -1, rep, false})
 		}
 	}
